@@ -163,7 +163,11 @@ def packMulti (msgs : List Bytes) : Bytes :=
 /-- MultiServiceResponsePacket._parse_reply: split the reply data at the offsets -/
 def unpackMulti (d : Bytes) : List Bytes :=
   let n := leVal (d.take 2)
-  let offs := (List.range n).map fun i => leVal ((d.drop (2 + 2 * i)).take 2)
+  -- `offset_data = data[2 : 2 + 2 * n]` is cut by the slice when the reply is short; a trailing single byte makes
+  -- `UINT.decode` fail (the whole parse then fails: no embedded replies)
+  let tbl := min (2 * n) (d.length - 2)
+  if tbl % 2 = 1 then [] else
+  let offs := (List.range (tbl / 2)).map fun i => leVal ((d.drop (2 + 2 * i)).take 2)
   let ends := offs.drop 1
   (List.range offs.length).map fun i =>
     match ends[i]? with
